@@ -368,8 +368,11 @@ where
             .save_welcome(welcome)
             .map_err(|e| Error::Welcome(e.to_string()))?;
 
-        // Update the group to inactive
-        if let Some(mut group) = self.get_group(&mls_group_id.into())? {
+        // Update the group to inactive. The group id inside a welcome is chosen by its sender:
+        // declining an invitation must not disable a group the user is already active in.
+        if let Some(mut group) = self.get_group(&mls_group_id.into())?
+            && group.state != group_types::GroupState::Active
+        {
             group.state = group_types::GroupState::Inactive;
             self.storage()
                 .save_group(group)
